@@ -33,13 +33,17 @@ def build(rng, enz):
     meta = []
     for oid, cname, wd, fs, L in inputs:
         n = len(wd)
-        feats = gen.gen_features(rng, n, rng.choice([0, 2, 4, 6]))
+        # some inputs are documented: a reference list, and features citing it (a citation is a qualifier like any
+        # other: in the product it must still designate the same paper)
+        refs = [100 + rng.randrange(12) for _ in range(rng.choice([0, 0, 1, 2, 3]))]
+        refs = list(dict.fromkeys(refs))
+        feats = gen.gen_features(rng, n, rng.choice([0, 2, 4, 6]), allow_cites=len(refs))
         # partial `source`-typed features are what the library itself generates for every fragment, so any
         # product re-used one level up carries them: keep them in the tables
         if fs + L <= n and L >= 3 and rng.random() < 0.6:
             a = rng.randrange(fs, fs + L - 1)
             feats.append(Feat(0, "s{}".format(40 + rng.randrange(5)), (), ((a, rng.randint(a + 1, fs + L), 0),)))
-        feats += gen.features_inside(rng, fs, min(n, fs + L), rng.choice([0, 1, 2, 3]), n)
+        feats += gen.features_inside(rng, fs, min(n, fs + L), rng.choice([0, 1, 2, 3]), n, allow_cites=len(refs))
         if fs + L <= n and rng.random() < 0.5:
             feats.append(Feat(1, "u90", (), ((fs, fs + L, rng.choice([1, -1, 0])),)))          # exactly the fragment
         if fs + L + 1 <= n and rng.random() < 0.5:
@@ -63,7 +67,7 @@ def build(rng, enz):
         k1 = rng.randrange(n)
         if rng.random() < 0.3:
             k1 = (k1 + rng.randrange(n)) % n
-        c = CRec(oid, gen.rot(wd, k1), gen.rotate_feats(feats, n, k1), [])
+        c = CRec(oid, gen.rot(wd, k1), gen.rotate_feats(feats, n, k1), refs)
         # a location running past the end is what `>>` writes; a GenBank file spells the same feature as a join
         # across the origin: use both spellings
         cf = []
@@ -76,8 +80,8 @@ def build(rng, enz):
                 else:
                     ps.append((s, e, st))
             cf.append(ft._replace(parts=tuple(ps)))
-        ents.append(asm.ent_json(oid, cname, c.seq, cf))
-        meta.append({"oid": oid, "word": wd, "feats": feats_to_json(feats), "fs": fs, "L": L})
+        ents.append(asm.ent_json(oid, cname, c.seq, cf, refs=refs))
+        meta.append({"oid": oid, "word": wd, "feats": feats_to_json(feats), "fs": fs, "L": L, "refs": refs})
     mods_j = ents[:-1]
     rng.shuffle(mods_j)
     return {"enz": name, "vector": ents[-1], "mods": mods_j, "meta": meta, "pid": 5, "pname": 6}
@@ -97,7 +101,8 @@ def expected_features(meta):
                 mapped = sorted((offset + ((t - fs) % n), st) for q, (s, e, st) in zip(pos, f.parts) for t in q)
                 # a zero-width site keeps its place between the same two nucleotides (strand code 9 marks a site)
                 mapped += sorted((offset + (p_ - fs), 9) for p_, _ in sites)
-                exp.append((f.ftype, f.qual, tuple(mapped)))
+                cited = tuple(m.get("refs", [])[int(c_[1:]) - 1] for c_ in f.cites if c_[0] == "i")
+                exp.append((f.ftype, f.qual, tuple(mapped), cited))
                 stats[0] += 1
             else:
                 stats[1] += 1
@@ -117,11 +122,14 @@ def check_case(ctx, case):
         exp, (kept, dropped) = expected_features(case["meta"])
         generated = {"s{}".format(m["oid"]) for m in case["meta"]}
         got = []
-        for pf in impl.canon_record(prod).feats:
+        cprod = impl.canon_record(prod)
+        for pf in cprod.feats:
             if pf.ftype == 0 and pf.qual in generated:
                 continue        # the provenance feature generated for a fragment of one of the inputs
             got.append((pf.ftype, pf.qual, tuple(sorted((t % N, st) for (s, e, st) in pf.parts for t in range(s, e))
-                                                 + sorted((s % N, 9) for (s, e, st) in pf.parts if s == e))))
+                                                 + sorted((s % N, 9) for (s, e, st) in pf.parts if s == e)),
+                        tuple((cprod.refs[int(c_[1:]) - 1] if c_[0] == "i" and c_[1:].isdigit()
+                               and 0 < int(c_[1:]) <= len(cprod.refs) else "unresolved:" + c_) for c_ in pf.cites)))
         got.sort()
         if got != exp:
             extra = [g for g in got if g not in exp][:2]
